@@ -15,7 +15,12 @@ ASSUMPTIONS = ["'influences' is established by perturbing the coordinate (up to 
 def run(ctx):
     rng = ctx.rng
     ss = S.generate(ctx, 14 if ctx.quick else 100, 2 if ctx.quick else 4, max_e=6, max_loops=4, routings_per_graph=1, kinds=("uniform",))
-    for s in ss:
+    for k, s in enumerate(ss):
+        if k % 4 == 3:
+            # an exact zero (and an exact power of two) in a radial Box-Muller slot
+            n = len(s["case"]["edges"]); dl = s["case"]["D"] * s["routing"]["L"]
+            j = rng.randrange((dl + dl % 2) // 2)
+            s["xs"] = list(s["xs"]); s["xs"][2 * n - 1 + 2 * j] = rng.choice([0.0, 0.0, 2.0 ** -1074]); s["kind"] = "zero_radial"
         s["xs_long"] = s["xs"] + [rng.random() for _ in range(3)]
         s["req"] = S.sample_request(s["case"], s["routing"], s["table"], s["xs_long"], debug=False, meta=True)
     S.run(ss)
